@@ -153,6 +153,7 @@ class SimLoop(object):
         self._seen = set()
         self.timer_fires = 0
         self.on_step = None          # optional invariant hook
+        self.batch_timers = True
         self.stopped = False
 
     # -- time
@@ -168,8 +169,12 @@ class SimLoop(object):
         return self._now - self._start
 
     def _tie(self):
-        r = self._tie_rng
-        return r.random() if r is not None else 0.0
+        # Timers with numerically equal due times fire in arming order.  The
+        # real loop refreshes its clock when a timer is armed, so a timer
+        # armed later is due (infinitesimally) later; a seeded shuffle here
+        # produced orders the real hub cannot (found by selftest/fidelity.py,
+        # program p_pool).  Schedule diversity comes from seeded latencies.
+        return 0.0
 
     # -- scheduling
     def _register(self, func):
@@ -297,19 +302,34 @@ class SimLoop(object):
             if self.steps >= self.step_cap:
                 self.cap_hit = True
                 return
-            tok = heapq.heappop(timers)
-            t = tok[3]
-            if tok[0] > self._now:
-                self._now = tok[0]
-            func, args = t.callback, t.args
-            t.token = None
-            if t.ref:
-                self._ref_timers -= 1
-            self.steps += 1
-            self.timer_fires += 1
-            try:
-                func(*args)
-            except BaseException:
-                self.handle_error((func, args), *sys.exc_info())
-            if self.on_step is not None:
-                self.on_step()
+            # like libev: every timer that has expired by the new `now` fires
+            # in this iteration, in (due, arming) order, before the callback
+            # queue is served again (batch_timers); with batch_timers off,
+            # one timer per iteration (the later-armed equal-due timer is
+            # "infinitesimally later": also a schedule the real loop produces)
+            first = True
+            while timers:
+                while timers and timers[0][3] is None:
+                    heapq.heappop(timers)
+                if not timers:
+                    break
+                if not first and (not self.batch_timers or
+                                  timers[0][0] > self._now):
+                    break
+                first = False
+                tok = heapq.heappop(timers)
+                t = tok[3]
+                if tok[0] > self._now:
+                    self._now = tok[0]
+                func, args = t.callback, t.args
+                t.token = None
+                if t.ref:
+                    self._ref_timers -= 1
+                self.steps += 1
+                self.timer_fires += 1
+                try:
+                    func(*args)
+                except BaseException:
+                    self.handle_error((func, args), *sys.exc_info())
+                if self.on_step is not None:
+                    self.on_step()
